@@ -148,7 +148,7 @@ def run(ctx):
         "pool": pool,
         "trace_shards": nshards,
         "binding_selftest_corrupted_events_rejected": selftest,
-        "exhaustive": "MC_Fmt: all outputs within edit distance %d of %d seed token strings" % (1 if ctx.quick else 2, 18),
+        "exhaustive_scope": "MC_Fmt: all outputs within edit distance %d of %d seed token strings" % (1 if ctx.quick else 2, 18),
         "samples": [{"key": job_key(e["job"]), "code_tokens": len(e["cin"]), "comments": len(e["min"]),
                      "output_code_tokens": len(e["cout"])} for e in (changed[:2] + accepted[-2:])],
     }, assumptions=[
